@@ -123,6 +123,14 @@ impl CertificateSigningRequestParams {
 			..CertificateParams::default()
 		};
 		let raw = info.subject_pki.subject_public_key.data.to_vec();
+		let public_key = PublicKey { alg, raw };
+		// The issued certificate carries rcgen's own encoding of the key. Only take a request
+		// whose SubjectPublicKeyInfo is exactly that, byte for byte (the comparison above does
+		// not see everything, e.g. further elements after the algorithm parameters).
+		let spki = yasna::construct_der(|writer| serialize_public_key_der(&public_key, writer));
+		if spki != info.subject_pki.raw {
+			return Err(Error::UnsupportedSignatureAlgorithm);
+		}
 
 		if let Some(extensions) = csr.requested_extensions() {
 			for ext in extensions {
@@ -196,10 +204,7 @@ impl CertificateSigningRequestParams {
 		// * name_constraints
 		// and any other extensions.
 
-		Ok(Self {
-			params,
-			public_key: PublicKey { alg, raw },
-		})
+		Ok(Self { params, public_key })
 	}
 
 	/// Generate a new certificate based on the requested parameters, signed by the provided
